@@ -873,7 +873,7 @@ func run(c *lib.Ctx) {
 		load[m] += w.cost
 	}
 	lib.Parallel(len(chunks), 16, func(k int) {
-		res := c.Child("hist", childIn{Seed: c.Seed, Tier: c.Tier, Indices: chunks[k]}, lib.ChildOpts{Timeout: 30 * time.Minute, Env: []string{"GOGC=200"}})
+		res := c.Child("hist", childIn{Seed: c.Seed, Tier: c.Tier, Indices: chunks[k]}, lib.ChildOpts{Timeout: 120 * time.Minute, Env: []string{"GOGC=200"}})
 		if res.TimedOut {
 			c.Inconclusive("child for histories %v hit the watchdog", chunks[k])
 			return
